@@ -299,13 +299,34 @@ def run_lines(exe, lines, env=None, timeout=600, args=(), max_crashes=200):
             done = len(lines) - 1
         st = se.decode(errors='replace')
         if hung:
+            # The watchdog fired on the whole invocation, which on a loaded
+            # machine may just be slow.  Run the case that was in progress
+            # alone, generously: only if it does not finish by itself is it
+            # a hang of that input.
             hangs += 1
-            crashes[done] = ('hang', st[-3000:])
+            try:
+                p1 = subprocess.run([exe] + list(args), input=(lines[done] + '\n').encode(),
+                                    stdout=subprocess.PIPE, stderr=subprocess.PIPE,
+                                    env=child_env(env), timeout=max(300, timeout // 3))
+                a1 = [l for l in p1.stdout.decode(errors='replace').split('\n')[:-1]
+                      if l.startswith('R ') or l == 'R']
+                if p1.returncode == 0 and a1:
+                    out[done] = a1[0]
+                else:
+                    crashes[done] = (classify_crash(p1.returncode, p1.stderr.decode(errors='replace')),
+                                     p1.stderr.decode(errors='replace')[-6000:])
+            except subprocess.TimeoutExpired as e1:
+                crashes[done] = ('hang', (e1.stderr or b'').decode(errors='replace')[-3000:])
+            if hangs > 3 and not crashes:
+                raise Inconclusive('driver %s keeps exceeding its watchdog without any single case hanging '
+                                   '(machine overloaded?)' % exe)
         else:
             crashes[done] = (classify_crash(rc, st), st[-6000:])
         start = done + 1
         if len(crashes) > max_crashes:
             break
+        if sum(1 for k, _ in crashes.values() if k == 'hang') >= 3:
+            break       # hangs again and again: stop, the alarms stand
     return out, crashes
 
 
@@ -615,10 +636,11 @@ def selfgen_shard(a):
     exe, seed, first, count = a[:4]
     extra = list(a[4]) if len(a) > 4 and a[4] else []
     env = a[5] if len(a) > 5 else None
-    timeout = a[6] if len(a) > 6 else 1800
+    timeout = a[6] if len(a) > 6 else 900
     res = {'evals': 0, 'sigs': set(), 'alarms': [], 'stats': {}, 'samples': []}
     done = first
     guard = 0
+    nhang = 0
     while done < first + count and guard < 60:
         guard += 1
         r = run_selfgen(exe, [str(seed), str(done), str(first + count - done)] + extra,
@@ -636,8 +658,22 @@ def selfgen_shard(a):
             break
         idx = int(r['lastcase']) if r['lastcase'] is not None else done
         key, st = r['crash']
+        if key == 'hang':
+            # watchdog on the whole invocation: is that one case really stuck?
+            r1 = run_selfgen(exe, [str(seed), str(idx), '1'] + extra, env=env, timeout=120)
+            if r1['crash'] is None:
+                # it finishes alone: slow machine, not a hang; count its results and go on
+                for (k1, d1, c1) in r1['viols']:
+                    res['alarms'].append((k1, {'seed': seed, 'index': idx, 'args': extra}, d1))
+                res['evals'] += 0
+                done = idx + 1
+                continue
+            key, st = r1['crash']
+            nhang += 1
         if not (key.startswith('exit:3') and r['viols']):   # exit 3 = driver already printed a VIOL (hang)
             res['alarms'].append((key, {'seed': seed, 'index': idx, 'args': extra}, st))
         res['evals'] = max(0, res['evals'] - 1)
         done = idx + 1
+        if nhang >= 1:
+            break           # it hangs: stop this shard, the alarm stands
     return res
